@@ -61,6 +61,10 @@ add("C16", "exhaustive (name, position) enumeration over independent reserved-wo
     "A fixed executable seed with one entity of every kind is instantiated with every name from the union of three independently written reserved-word/builtin lists (HLSL, MSL/C++14, GLSL), naga helper and temporary patterns, case/suffix variants and non-ASCII identifiers at each of 15 positions, and with ordered pairs of a 48-name adversarial subset at pairs of positions. For each text backend the output must parse and scope-resolve without new identifier problems (reserved spelling confirmed against a list the author is certain of, duplicates in one scope), the reported entry-point name must exist, and execution must give the same result as with neutral names (every reference still reaches the intended entity).",
     "Names that WGSL itself lets shadow a builtin the seed calls, WGSL builtin function names and texture/sampler type names are excluded (their resolution in the target interpreters is only approximated). Problems already present with neutral names are not attributed to the user name.", "DESIGN.md §3 C16")
 
+add("C17", "bounded-exhaustive enumeration of interface programs x binding maps; an interface model computed by the generator compared with decorations/annotations/reflection read by independent parsers",
+    "F5 programs: every multiset of 3 resource kinds x 5 stage combinations (1-4 entry points) x use-subsets per entry point x IO signatures (bare and struct, builtins, locations 0/1/2/15, all interpolation and sampling attributes, invariant) x shared/unshared bindings x direct/helper-routed use. The model (group/binding, storage class, access mode, stage, workgroup size, per-IO decorations, per-entry-point static use through the call graph) is compared in both directions with SPIR-V 1.1/1.4 (decorations, execution models/modes, OpEntryPoint interface lists), HLSL registers/spaces under the default and an explicit map, MSL buffer slots/address spaces/constness under a per-entry-point resource map, GLSL layout(binding), per-entry-point block elimination and the Uniforms reflection, and reflection entry-point names.",
+    "The model comes from the generator, not from naga. Not modelled: MSL vertex/fragment argument attributes, GLSL in/out location qualifiers, HLSL samplers (sampler heap indirection), texture-sampler pairing reflection.", "DESIGN.md §3 C17")
+
 NA = {
 }
 for i in range(1, 20):
